@@ -499,16 +499,17 @@ def corrupt(cx, win, exe, inputs, cfg, strides, parse_max=None, aw_cfg=None):
     # small windows, the state in which the machine as written stops (the known defect classes)
     evs = [(i, kind, pos, val, None, msg) for i, kind, pos, val, msg in res["MCRASH"]] + [(i, kind, pos, val, eq, "") for i, kind, pos, val, eq in res["ACC"]]
     cases, meta, per_key = [], [], {}
-    nreal = 0
+    nreal = nbytes = 0
     lim = None if parse_max is None else max(parse_max, 60000)
     for i, kind, pos, val, eq, msg in evs:
         enc = res["MUT"][i][3] if i in res["MUT"] else res["MUTENC"].get(i)
         m = mutated(enc, kind, pos, val) if enc is not None else None
-        if m is None or (lim is not None and len(m) > lim) or nreal >= 2000:
+        if m is None or (lim is not None and len(m) > lim) or nreal >= 2000 or nbytes + len(m) > 1500000:
             cases.append(None)   # not classified by TLC (too long / too many): reported under a key that is never "known"
         else:
             cases.append({"id": len(cases), "src": list(m), "inp": list(inputs[i][1])})
             nreal += 1
+            nbytes += len(m)
         meta.append((i, kind, pos, val, eq, msg))
     real = [c for c in cases if c is not None]
     r, got = tlc_file(cfg, real, "%s classification of %d dying/accepted corruptions" % (cfg, len(real)))
@@ -747,7 +748,7 @@ def selftest():
     if hook:
         a, j = acc[0], rej[0]
         lines = [d_line(0, 1, a[0], a[4], a[5], None), d_line(1, 0, j[0], [], [], None),
-                 d_line(2, 0, a[0], [], [], None),                         # valid stream, expectation flipped to reject
+                 d_line(2, 0, a[0], [], [], a[4]),                         # valid stream, expectation flipped to reject
                  d_line(3, 1, a[0], a[4][:-1] + [a[4][-1] ^ 1], a[5], a[4])]  # expected output corrupted
         res = run_harness(exe, lines, chunk=1)
         f = {i for i, _ in res["FAIL"] + res["CRASH"]}
